@@ -1370,7 +1370,10 @@ class SVG:
         self.remove_empty_subpaths(inplace=True)
         self.remove_unpainted_shapes(inplace=True)
 
-        # pruning may leave groups with fewer than two children: flatten them
+        # pruning may orphan gradients (their only user was invisible) ...
+        self._remove_orphaned_gradients()
+        self.elements = None
+        # ... and leave groups with fewer than two children: flatten them
         for context in reversed(list(self.depth_first())):
             if _is_group(context.element):
                 _try_remove_group(context.element)
